@@ -55,7 +55,8 @@ PROPS = {
         "title": "decoding untrusted bytes is total",
         "bounds": "every typed accessor from an arbitrary start position (any usize) on <= 4 symbolic bytes; probe; Size::head/tail on 9 bytes; "
                   "bytes/str/array/map iterators drained on all inputs <= 4 (3) bytes with the unwinding assertion as the work bound; drop-exactly-once "
-                  "for [D;3] / (D,D) on all 5-/4-byte inputs; Duration type-directed (all 2^96 payloads); plus Kani's panic/overflow/pointer checks in every "
+                  "for [D;3] / (D,D) on all 5-/4-byte inputs; Duration type-directed (all 2^96 payloads); what the iterators PROMISE (size_hint lower bound = what collect()/extend() pre-allocate) of array_iter/array_iter_with/map_iter/map_iter_with/bytes_iter/str_iter "
+                  "<= items the input can still hold, for ANY 8-byte declared length; collections with a declared length of 2^32..2^64 on a short input (alloc group); plus Kani's panic/overflow/pointer checks in every "
                   "C04/C05/C11 harness (those run the accessors on all 9-byte heads from position 0)",
         "outside": "inputs longer than the stated lengths; wall-clock time (iteration counts are bounded instead); the global allocator",
         "assumptions": ["core::str::from_utf8 over-approximated in the iterator harnesses (validated unstubbed in C04)"],
@@ -86,11 +87,12 @@ PROPS = {
                   "leaf accessors replaced by one-byte models proven equivalent on that domain (c06_lm_*); heads and strings: one item per concrete initial byte with the real accessors; "
                   "full-width counters: a definite array / map head with ANY 8-byte length (symbolic) followed by 0 or 2 one-byte scalars and the end of the input (no-alloc quick, alloc thorough): Ok exactly when the declared item count (2n for maps, unwrapped) is present; "
                   "alloc stack mode behind a concrete prefix (83 9f ff / 82 9f) + one symbolic alphabet byte + 3 bytes over {00, ff} (thorough)",
-        "outside": "more than N one-byte items; multi-byte heads inside nested containers (compositional: lm_equiv + heads group); depth-10^4 chains; the alloc build's stack-mode logic beyond N=3 (its smallest witness for a definite map after a closed indefinite sibling needs N=7: not reached); containers that end by running out of input with multi-byte heads",
+        "outside": "more than N one-byte items; multi-byte heads inside nested containers other than the 8-byte-length family (compositional: lm_equiv + heads group); depth-10^4 chains; the alloc build's stack-mode logic beyond N=3 other than behind the three concrete prefixes of c06_stack_mode_* (thorough tier, 20-30 min each); "
+                   "work bounds (a loop that spins without consuming shows up only as an unwinding-assertion failure = inconclusive)",
         "assumptions": ["leaf models (each proven equivalent to the real accessor on the asserted domain)", "from_utf8 modelled as always-valid in the text-head harnesses (boundaries, not validation)"],
         "groups": [core({"quick": ["c06::c06_lm", "c06::c06_a1", "c06::c06_wide", "c06_gen::q::"], "thorough": ["c06::c06_", "c06_gen::"]}),
                    core({"quick": ["c06_gen::q::", "c06::c06_lm"], "thorough": ["c06::c06_a1_n1", "c06::c06_a1_n2", "c06::c06_a1_n3", "c06::c06_wide", "c06::c06_stack_mode", "c06_gen::", "c06::c06_lm"]}, features=("half", "alloc"),
-                        timeout={"quick": 600, "thorough": 7200})],
+                        timeout={"quick": 600, "thorough": 7200}, jobs={"quick": 12, "thorough": 3}, mem_gb={"quick": 12, "thorough": 24})],
     },
     "C07": {
         "title": "CborLen is exact",
@@ -146,7 +148,7 @@ PROPS = {
         "outside": "the lifting from one step to poll/drop schedules of any length is an induction ARGUMENT (post-states are Inv states, which are all covered as pre-states), not a query; payloads > 2 bytes; > 2 completed reads in one poll",
         "assumptions": ["Vec::resize replaced by a fixed-capacity growth model", "hook: cfg(minicbor_verif) __verif_from_parts/__verif_state (add-only)"],
         "groups": [io({"quick": ["c15::c15_q_step", "c15::c15_new"], "thorough": ["c15::c15_q_step", "c15::c15_t_step", "c15::c15_new"]}, timeout={"quick": 850, "thorough": 3600}, mem_gb={"quick": 15, "thorough": 30}, jobs={"quick": 4, "thorough": 2}),
-                   io({"quick": ["c15::c15_q_s_"], "thorough": ["c15::c15_q_s_", "c15::c15_t_s_"]}, timeout={"quick": 600, "thorough": 1800}, mem_gb={"quick": 15, "thorough": 15}, jobs={"quick": 4, "thorough": 4})],
+                   io({"quick": ["c15::c15_q_s_"], "thorough": ["c15::c15_q_s_", "c15::c15_t_s_"]}, timeout={"quick": 600, "thorough": 1800}, mem_gb={"quick": 15, "thorough": 15}, jobs={"quick": 4, "thorough": 3})],
     },
     "C16": {
         "title": "AsyncWriter delivers whole frames in order under short writes and cancel+sync",
@@ -182,9 +184,9 @@ PROPS = {
         "title": "same behaviour in every feature configuration",
         "bounds": "no cross-build query exists: agreement is shown by TRANSITIVITY through a complete oracle. The identical harness sources of C05 (all integer heads x all accessors), C04 (accessors vs R1/R8), "
                   "C03 (every Encoder method), C06 (skip vs R3; the documented no-alloc difference is cfg-ed into the oracle) and, with half, C11 steps / C12 are verified against minicbor built with "
-                  "{} and {alloc} (quick: the u8/u64/i8/i64/Int/char accessors, datatype, the u64/i64/simple encoder methods, skip models and skip on N=3); thorough adds {std}, {half,std}, {half,alloc} and the full harness sets; each harness fixes, for every input in its bound, the Ok/Err outcome, the value and the position, "
+                  "{} and {alloc} (quick: the u8/u64/i8/i64/Int/char accessors, datatype, the u64/i64/simple encoder methods, skip models, skip on N=3/4 and on maps with ANY 8-byte length); thorough adds {std}, {half,std}, {half,alloc} and the full harness sets; each harness fixes, for every input in its bound, the Ok/Err outcome, the value and the position, "
                   "so builds that all satisfy it agree with each other. minicbor-derive under {alloc} (wrong-tag error class AND position, a round trip, an encoding); minicbor-serde: C17 Serializer/Deserializer harnesses under {} (quick) and {alloc,half}, {std,half} (thorough); {half} is what C17 itself checks",
-        "outside": "error MESSAGES (static vs formatted) and error classes beyond Ok/Err where the single-build oracle only requires 'an error'; 32-bit targets and atomic32; the alloc-build skip beyond N=3",
+        "outside": "error MESSAGES (static vs formatted) and error classes beyond Ok/Err where the single-build oracle only requires 'an error'; 32-bit targets and atomic32; the alloc-build skip beyond N=3 (all-strings) / the 8-byte-length family with 0 items",
         "assumptions": ["agreement is derived by transitivity (argument), each build is decided by its own queries"],
         "groups": [
             core({"quick": ["c05::c05_u8", "c05::c05_u64", "c05::c05_i8", "c05::c05_i64", "c05::c05_int", "c05::c05_char", "c04::c04_datatype", "c04::c04_bytes_definite", "c03::c03_u64", "c03::c03_i64", "c03::c03_simple", "c06::c06_lm", "c06::c06_a1_n3", "c06::c06_a1_n4", "c06::c06_wide_len_map"],
